@@ -191,11 +191,11 @@ def R_dyn(toks):
     while i < len(toks):
         t = toks[i]
         if t.text == "&" and i + 1 < len(toks) and toks[i+1].kind == "ident" and [x.text for x in toks[i+2:i+2+len(pat_cast)]] == pat_cast:
-            out.extend(_mk(["super", "::", "OpId", "::", toks[i+1].text], t))
-            for x in out[-4:]: x.pre = ""
+            out.extend(_mk(["super", ":", ":", "OpId", ":", ":", toks[i+1].text], t))
+            for x in out[-6:]: x.pre = ""
             i += 2 + len(pat_cast); n += 1; continue
         if [x.text for x in toks[i:i+len(pat_ty)]] == pat_ty:
-            new = _mk(["super", "::", "OpId"], t)
+            new = _mk(["super", ":", ":", "OpId"], t)
             for x in new[1:]: x.pre = ""
             out.extend(new); i += len(pat_ty); n += 1; continue
         out.append(t); i += 1
